@@ -48,6 +48,8 @@ class Scheduler:
         self.snap_frames = [[] for _ in range(n)]
         self.prev_frame = [None] * n
         self.lines_seen = set()
+        self.global_lines = set()  # lines that touch module-level MUTABLE state (the only thing threads can share)
+        self._code_lines = {}
         # schedule coordinates: (thread, id of the innermost operation, yield count inside it) -- stable
         # under deletion of other operations, which is what lets the minimiser make progress
         self.opstack = [[["root", 0]] for _ in range(n)]
@@ -153,7 +155,11 @@ class Scheduler:
         top[1] += 1
         if filename is not None:
             self._track_windows(i, filename, loc[1], frame)
-            self.lines_seen.add((loc[0], loc[1]))
+            key = (loc[0], loc[1])
+            if key not in self.lines_seen:
+                self.lines_seen.add(key)
+                if frame is not None and self._touches_shared(frame, loc[1]):
+                    self.global_lines.add(key)
         tgt = self.policy.decide(self, i, loc)
         if tgt is not None and tgt != i and self.alive[tgt]:
             self.handovers.append((i, [top[0], top[1]], tgt, loc))
@@ -162,6 +168,36 @@ class Scheduler:
             self.cur = tgt
             self.sems[tgt].release()
             self.sems[i].acquire()
+
+    def _touches_shared(self, frame, lineno):
+        """Does this source line load/store a module-level name bound to mutable state (dict/list/set, a threading.local,
+        or an instance of a class defined by the library itself)?  Computed once per code object with dis."""
+        import dis
+        import types
+
+        code = frame.f_code
+        tab = self._code_lines.get(code)
+        if tab is None:
+            tab = {}
+            cur = None
+            for ins in dis.get_instructions(code):
+                if ins.starts_line is not None:
+                    cur = ins.starts_line
+                if ins.opname in ("LOAD_GLOBAL", "STORE_GLOBAL", "LOAD_NAME") and isinstance(ins.argval, str):
+                    tab.setdefault(cur, set()).add(ins.argval)
+            self._code_lines[code] = tab
+        for name in tab.get(lineno, ()):
+            v = frame.f_globals.get(name, None)
+            if v is None:
+                continue
+            if isinstance(v, (dict, list, set, bytearray, threading.local)):
+                return True
+            if isinstance(v, (types.ModuleType, types.FunctionType, types.BuiltinFunctionType, type)):
+                continue
+            mod = getattr(type(v), "__module__", "") or ""
+            if mod.startswith("jaxtyping"):
+                return True
+        return False
 
     def alive_others(self, i):
         return [j for j in range(self.n) if j != i and self.alive[j]]
